@@ -99,6 +99,24 @@ def classify_str_value_paths(body: List[ast.stmt], result: str, max_iter: int) -
     return Enumerator(on_stmt, max_iter=max_iter).run(body, Path({result: False}))
 
 
+def vis_var(fn: ast.FunctionDef) -> str:
+    """local that holds self.visibility in an evaluator (`vis = self.visibility`)."""
+    for st in ast.walk(fn):
+        if isinstance(st, ast.Assign) and ast.unparse(st.value) == "self.visibility" and isinstance(st.targets[0], ast.Name):
+            return st.targets[0].id
+    raise AnchorError(f"{fn.name}: no local bound to self.visibility")
+
+
+def _cond_mentions(p: Path, name: str, pol: bool, before_line: Optional[int] = None) -> bool:
+    """a branch condition on the path that tests the local `name` (as a conjunct) with the given polarity"""
+    for c, pl, ln, node in p.conds:
+        if before_line is not None and ln > before_line:
+            continue
+        if pl == pol and isinstance(node, ast.AST) and any(isinstance(x, ast.Name) and x.id == name for x in ast.walk(node)):
+            return True
+    return False
+
+
 def _cond_has(p: Path, needle: str, pol: bool, before_line: Optional[int] = None) -> bool:
     return any(needle in c and pl == pol and (before_line is None or ln <= before_line) for c, pl, ln, _ in p.conds)
 
@@ -186,6 +204,7 @@ def r01_2(ctx):
     result = result_var(f.node, "_cached_str_val")
     max_iter = 1 if ctx.tier == "quick" else 2
     seqs: Dict[str, Set[Tuple[str, ...]]] = {}
+    vv = vis_var(f.node)
     for name, body in branches.items():
         paths = classify_str_value_paths(body, result, max_iter)
         nviol: Dict[str, Tuple[str, int]] = {}
@@ -210,7 +229,7 @@ def r01_2(ctx):
                                      ("a default is used on a path that never looked at self.weak_rev_values", ln))
                 # (c) USER guards
                 if s == "USER":
-                    if not (_cond_has(p, "vis", True, ln)):
+                    if not (_cond_mentions(p, vv, True, ln)):
                         nviol.setdefault("USER without visibility", ("user value used without a positive visibility test", ln))
                     if p.flags.get("self._has_active_indirect_set") is not False:
                         nviol.setdefault("USER under active set",
@@ -289,6 +308,9 @@ def r01_3(ctx):
     ctx.analysed(f.qual)
     result = result_var(f.node, "_cached_bool_val")
     paths = bool_value_paths(f.node, result, 1 if ctx.tier == "quick" else 2)
+    vv = vis_var(f.node)
+    sel_var = next((ast.unparse(st.targets[0]) for st in ast.walk(f.node) if isinstance(st, ast.Assign)
+                    and ast.unparse(st.value) == "expr_value(self.rev_dep)"), "dep_val")
     viol: Dict[str, Tuple[str, int]] = {}
     n_nonchoice = 0
     for p, status in paths:
@@ -304,10 +326,10 @@ def r01_3(ctx):
             if s in ("DEF", "IMPLY", "SELECT") and not nonchoice:
                 viol.setdefault(f"{s} reachable for choice members", (f"{s} is applied on a path not guarded by `not self.choice`", ln))
             if s == "USER":
-                if not _cond_has(p, "vis", True, ln):
+                if not _cond_mentions(p, vv, True, ln):
                     viol.setdefault("USER without visibility", ("user value used without a positive visibility test", ln))
                 if nonchoice:
-                    ok = isinstance(v, ast.Call) and ast.unparse(v.func) == "min" and any(ast.unparse(a) == "vis" for a in v.args)
+                    ok = isinstance(v, ast.Call) and ast.unparse(v.func) == "min" and any(ast.unparse(a) == vv for a in v.args)
                     if not ok:
                         viol.setdefault("USER not bounded by visibility", ("the user value is not met (min) with the visibility", ln))
             if s in ("DEF", "IMPLY") and "USER" in kinds:
@@ -333,7 +355,7 @@ def r01_3(ctx):
                 viol.setdefault("SELECT overridden", (f"{kinds[-1]} assigns after select", srcs[-1][1]))
             # an enabled select raises the value: path with dep_val true after the select consult must assign
             sel_line = [e[1] for e in p.events if e[0] == "consult:SELECT"]
-            if sel_line and any(c == "dep_val" and pol and ln > sel_line[-1] for c, pol, ln, _ in p.conds) and "SELECT" not in kinds:
+            if sel_line and any(c == sel_var and pol and ln > sel_line[-1] for c, pol, ln, _ in p.conds) and "SELECT" not in kinds:
                 viol.setdefault("SELECT not applied", ("rev_dep is true on a path but the value is not raised", sel_line[-1]))
         if choice and any(k in ("DEF", "IMPLY", "SELECT") for k in kinds):
             viol.setdefault("choice member takes defaults/imply/select", ("", 0))
